@@ -100,6 +100,9 @@ func main() {
 					seen[p.FuncName(fn)] = fn.Signature.String()
 				}
 			}
+			for f, k := range p.moduleStructFields() {
+				seen[k] = f.Type().String()
+			}
 		}
 		var names []string
 		for n := range seen {
